@@ -90,20 +90,22 @@ def appendCheck (fs : List Field) (x : Field) : List Field :=
   fs.map (fun f => if f.name = x.name ∧ x.depth < f.depth then { f with isShadowed := true } else f)
     ++ [{ x with isShadowed := x.isShadowed || fs.any (fun f => f.name = x.name ∧ f.depth < x.depth) }]
 
-/-- names of the top-level fields that are left out (`_`-prefixed / `new:"-"`): they still hide promoted
-    fields of the same name (1100e1f) -/
-def hiddenTop : Tree → List String
+/-- the fields that are left out (`_`-prefixed / `new:"-"`), at every level, with their depth: they still hide
+    deeper promoted fields of the same name (top level: 1100e1f; embedded structs: the `hidden` map threaded
+    through extractStructFields). The code keeps the smallest depth per name; "some left-out field of that name is
+    shallower" is the same test. -/
+def hiddenAll (d : Nat) : Tree → List (String × Nat)
   | .nil => []
-  | .field f rest => (if f.skip then [f.name] else []) ++ hiddenTop rest
-  | .embed _ _ _ _ _ rest => hiddenTop rest
+  | .field f rest => (if f.skip then [(f.name, d)] else []) ++ hiddenAll d rest
+  | .embed _ _ _ _ body rest => hiddenAll (d + 1) body ++ hiddenAll d rest
 
-/-- the deferred pass of extractTopFiels: promoted entries named like a left-out top-level field -/
-def hideBy (hidden : List String) (f : Field) : Field :=
-  if 0 < f.depth ∧ hidden.contains f.name then { f with isShadowed := true } else f
+/-- the deferred pass of extractTopFiels: entries named like a shallower left-out field -/
+def hideBy (hidden : List (String × Nat)) (f : Field) : Field :=
+  if hidden.any (fun h => h.1 = f.name ∧ h.2 < f.depth) then { f with isShadowed := true } else f
 
 /-- the generator's `g.fields` -/
 def flatten (t : Tree) : List Field :=
-  ((walkTop noShadow t).foldl appendCheck []).map (hideBy (hiddenTop t))
+  ((walkTop noShadow t).foldl appendCheck []).map (hideBy (hiddenAll 0 t))
 
 def goKeywords : List String :=
   ["break", "case", "chan", "const", "continue", "default", "defer", "else", "fallthrough", "for",
